@@ -3,8 +3,8 @@
 (a) TLC (spec/MC_CG.tla over spec/CGExact.tla) runs the CG recurrence exactly as coded in cg.py over exact Gaussian
     rationals on a catalog of 2x2 / 3x3 real SPD and complex Hermitian PD systems and checks in every state:
     r = b - A x, gamma = r^H M r, residual orthogonality and A-conjugacy against all earlier steps, the returned
-    iterate equals the exact A-norm minimiser over (effective start) + K_k(MA, M r0) computed from the normal
-    equations on the exact Krylov basis, zero rhs => zero, termination within n steps, frozen state after
+    iterate equals the exact A-norm minimiser over x0 + K_k(MA, M r0) for the caller's x0 (PropertyOptimal; zero for a
+    zero rhs) computed from the normal equations on the exact Krylov basis, zero rhs => zero, termination within n steps, frozen state after
     convergence, no non-trivial safe division, scale equivariance.  Every state exports the exact iterate the
     code model returns and the *property oracle* (minimiser over x0 + K_k for the caller's x0).
 (b) spec -> code: cg(A, b, x0, P, tol=1e-300, max_iters=k), inv(A, CG(..)) @ b and solve(..) are run for every TLC
@@ -28,12 +28,12 @@ from ..common import Violation
 PROP = "C12"
 
 ASSUMPTIONS = [
-    "exact model: |d| < 1e-40 (do_safe_div) and ||r|| < 1e-40 (converged mask) are modelled as d = 0 / r = 0; a "
-    "division of a non-zero numerator by a zero denominator is not representable and is ruled out by the TLC "
-    "invariant SafeDivBenign on the catalog (definite A and M)",
+    "exact model: |d| < 1e-40 (do_safe_div) and ||r|| < 1e-40 (converged mask) are modelled as d = 0 / r = 0; that "
+    "the guarded division never discards a non-zero numerator is the TLC invariant SafeDivBenign on the catalog "
+    "(definite A and M)",
     "exact model: right-hand sides with irrational norm are run un-normalised (scale-equivariance of the recurrence "
-    "from x0 = 0, itself checked by the TLC invariant Equivariance on every rational-norm column); columns with "
-    "x0 != 0 always have a rational norm and are normalised literally as in run_batched_cg",
+    "from x0 = 0, itself checked by the TLC invariants Equivariance / EquivarianceX0 on every rational-norm column); "
+    "columns with x0 != 0 always have a rational norm and b and x0 are divided by it literally as in run_batched_cg",
     "exact model: columns are independent records (all reductions in cg.py are over axis -2); agreement of the real "
     "multi-column runs with TLC's per-column values is established by the replay",
     "lock-step replay uses tol = 1e-300 (1e-15 for float32/complex64, where smaller values push gamma into the "
@@ -222,7 +222,7 @@ def _magnitude(s):
     mx = 0
     for j, b in enumerate(s["B"]):
         mult = s["norms"][j]
-        x = [fr(v) for v in s["X0"][j]]
+        x = [sc(fr(v), Fraction(1, mult)) if mult else fr(v) for v in s["X0"][j]]
         bn = [sc(fr(v), Fraction(1, mult)) if mult else fr(v) for v in b]
         r = [add(a, sc(c, -1)) for a, c in zip(bn, mv(A, x))]
         p = mv(M, r)
@@ -249,8 +249,8 @@ def render_catalog(systems):
     return ("---- MODULE CGCatalog ----\nEXTENDS Integers, Sequences\nCG_Systems == <<\n  " + body + "\n>>\n====\n")
 
 
-MC_INVARIANTS = ["CatalogOK", "ResidualInv", "Orthogonality", "KrylovOptimal", "OracleGalerkin", "ZeroRhs",
-                 "Terminates", "Frozen", "SafeDivBenign", "Equivariance", "Scaling", "Emit"]
+MC_INVARIANTS = ["CatalogOK", "ResidualInv", "Orthogonality", "KrylovOptimal", "PropertyOptimal", "OracleGalerkin",
+                 "ZeroRhs", "Terminates", "Frozen", "SafeDivBenign", "Equivariance", "EquivarianceX0", "Scaling", "Emit"]
 
 
 def run_model(systems, wd):
@@ -333,7 +333,8 @@ class _Recorder:
                 above.append("E")
             else:
                 above.append("T" if a > t else "F")
-        ctx["res"].append(float(np.mean(rs)))
+        # tracked residual in the precision of the loop state (float32 norms of tiny residuals underflow to 0)
+        ctx["res"].append(float(np.mean(np.linalg.norm(r, axis=-2))))
         ctx["events"].append({"ev": "cond", "k": int(state[1]), "steps": int(ctx["steps"]), "above": above,
                               "cont": bool(flag), "nprod": int(ctx["count"][0]), "maxit": int(ctx["maxit"]),
                               "iterations": 0, "nerr": 0, "errs_ok": True, "shape_ok": True})
@@ -398,7 +399,7 @@ def run_recorded(api, Ad, b, x0, P, tol, maxit, record=True):
     errs = np.asarray(info.get("errors", []), dtype=float).reshape(-1)
     want = np.asarray((ctx["res"] + ctx["res"][-1:])[2:], dtype=float)
     rt = 1e-3 if is32 else 1e-9
-    errs_ok = errs.shape == want.shape and bool(np.allclose(errs, want, rtol=rt, atol=1e-300))
+    errs_ok = errs.shape == want.shape and bool(np.allclose(errs, want, rtol=rt, atol=1e-300, equal_nan=True))
     ev = ctx["events"]
     ev.append({"ev": "end", "k": int(ctx["final"][1]), "steps": int(ctx["steps"]), "above": ["F"], "cont": False,
                "nprod": int(count[0]), "maxit": int(maxit), "iterations": int(info.get("iterations", -1)),
@@ -782,12 +783,27 @@ def validate_traces(traces, wd, name="events.ndjson", workers=16):
     return res, rejected, len(index)
 
 
-def negative_controls(traces, wd):
-    """Corrupt one recorded field (or drop one event) of a genuine trace; every corrupted copy must be rejected."""
-    src = next((evs for _, evs in traces if len(evs) >= 4 and evs[1]["above"][0] == "T" and evs[1]["cont"]
+def _synthetic_trace():
+    """A hand-written execution that honours the contract (two steps, then the residual is below the threshold)."""
+    def ev(kind, k, above, cont, **kw):
+        e = {"ev": kind, "k": k, "steps": k, "above": above, "cont": cont, "nprod": k + 1, "maxit": 5,
+             "iterations": 0, "nerr": 0, "errs_ok": True, "shape_ok": True, "first": False}
+        e.update(kw)
+        return e
+    t = [ev("cond", 0, ["T", "F"], True), ev("cond", 1, ["T", "F"], True), ev("cond", 2, ["F", "F"], False),
+         ev("end", 2, ["F"], False, iterations=3, nerr=2)]
+    t[0]["first"] = True
+    return t
+
+
+def negative_controls(traces, rejected, wd):
+    """Corrupt one recorded field (or drop one event) of a genuine *accepted* trace (a synthetic conforming trace
+    when the code under test produced none); every corrupted copy must be rejected, the unchanged copy accepted."""
+    src = next((evs for tid, (_, evs) in enumerate(traces)
+                if tid not in rejected and len(evs) >= 4 and evs[1]["above"][0] == "T" and evs[1]["cont"]
                 and evs[1]["k"] < evs[1]["maxit"]), None)
     if src is None:
-        return 0, 0
+        src = _synthetic_trace()
 
     def cp():
         return [dict(e) for e in src]
@@ -845,6 +861,8 @@ def run(tier):
     t0 = time.time()
     seed = common.seed()
     systems, dropped = cg_catalog()
+    if tier == "quick":
+        systems = systems[::3]        # every third catalog system (all matrices / preconditioners / x0 kinds remain)
     wd = tla.make_build_dir(PROP)
     capped = _Capped(cap=3)
     drift, traces = [], []
@@ -857,7 +875,7 @@ def run(tier):
             # an invariant of the *model* failed: the recurrence as transcribed does not have the property
             m = res.out
             i = m.find(f"Invariant {res.violated} is violated")
-            capped.add(Violation(PROP, "model_invariant", res.violated, {"invariant": res.violated},
+            capped.add(Violation(PROP, "model", res.violated, {"invariant": res.violated},
                                  f"TLC: invariant {res.violated} of MC_CG is violated\n" + m[i:i + 1500],
                                  {"kind": "model"}), ("invariant",))
             return common.finish(PROP, tier, t0, {"states": res.distinct, "transitions": res.states,
@@ -890,7 +908,7 @@ def run(tier):
             traces += tr
             nctl += nr
         # ... and larger floating-point systems (with the optimality predicate (d))
-        nlarge = 150 if tier == "quick" else 2500
+        nlarge = 150 if tier == "quick" else 10000
         opt_checked = opt_cases = 0
         large_samples = []
         for v, tr, st, meta in _pmap(large_case, [(seed, i) for i in range(nlarge)]):
@@ -906,7 +924,7 @@ def run(tier):
         tres, rejected, nevents = validate_traces(traces, wd)
         trace_violations(traces, rejected, capped)
         phase["trace_tlc"] = round(time.time() - t0, 1)
-        neg_ok, neg_n = negative_controls(traces, wd)
+        neg_ok, neg_n = negative_controls(traces, rejected, wd)
         phase["negative_controls"] = round(time.time() - t0, 1)
     finally:
         common.cleanup(wd)
